@@ -62,7 +62,7 @@ PROPERTIES = {
     'C01': dict(units=ENGINES + WRAPPERS, explanation='get returns a clone of the value stored under exactly this key; insert: last store wins, survivors unchanged'),
     'C07': dict(units=ENGINES + ['policy', 'wrappers_global', 'wrappers_async'], extra=[_reg('C07'), _kani('C07', 'policy')], explanation='on every fixture expansion the policy attribute arrives at the constructor as written (sync: the variant; async: the string, and EvictionPolicy::from maps every policy name to its own variant: unit policy); queue postconditions: hit_recency, store moves key to back, FIFO/LRU victim is the queue front; the conditional-invalidation callbacks emitted by the macros keep the relative queue order of the survivors (queue_order_preserved)'),
     'C08': dict(units=ENGINES_SCORES + ['policy', 'wrappers_global', 'wrappers_async'], extra=[_kani('C08'), _kani('C08', 'policy'), _reg('C08')], explanation='policy and frequency_weight attributes arrive at the constructor as written (structural; EvictionPolicy::from verified in unit policy); hit_counts postcondition and argmin postconditions of the scoring helpers'),
-    'C05': dict(units=ENGINES + ['memory_estimator', 'wrappers_global', 'wrappers_async'], extra=[_reg('C05')], explanation='on every fixture expansion the max_memory attribute arrives at the constructor in bytes, KB/MB/GB as powers of 1024 (structural); the invalidation callbacks emitted by the macros preserve the representation invariant the memory accounting rests on; insert_with_memory: total <= max_memory after every store, oversize value not cached and displaces nothing, no eviction while the total fits, FIFO/LRU victims are the oldest; memory totals are a proved fold along the queue (no total axioms); unit memory_estimator: the built-in estimators (String, Vec, Option, Result, 2-/3-tuples, Box) return inline size + owned heap capacity, recursively, without underflow',
+    'C05': dict(units=ENGINES + ['memory_estimator', 'wrappers_global', 'wrappers_async'], extra=[_reg('C05'), _kani('C05', 'estimator')], explanation='on every fixture expansion the max_memory attribute arrives at the constructor in bytes, KB/MB/GB as powers of 1024 (structural); the invalidation callbacks emitted by the macros preserve the representation invariant the memory accounting rests on; insert_with_memory: total <= max_memory after every store, oversize value not cached and displaces nothing, no eviction while the total fits, FIFO/LRU victims are the oldest; memory totals are a proved fold along the queue (no total axioms); unit memory_estimator: the built-in estimators (String, Vec, Option, Result, 2-/3-tuples, Box) return inline size + owned heap capacity, recursively, without underflow',
                 assumptions=['hit counters never saturate (u64::MAX hits on one entry)', 'sum of the estimates fits usize (machine arithmetic)']),
     'C02': dict(units=WRAPPERS + ['keys'], explanation='wrapper contracts: on every fixture expansion the cache is read and written under exactly key_str(d(p1) + "|" + d(p2) ...) with every parameter (and the receiver) present in order, d = Debug rendering (keys.rs blanket impl verified); lemmas: such keys are injective on argument tuples when each rendering is injective and "|"-safe',
                 assumptions=['std Debug of the built-in key types is injective and self-delimiting w.r.t. "|" (axioms ax_builtin_debug / ax_builtin_types); user CacheableKey impls and distinct NaN payloads are not covered'],
